@@ -257,7 +257,7 @@ func c05Round(R *vkit.Report, c c05Case, scope string, puts [][64]byte, queries 
 	if err != nil {
 		return fail("writer-error", "sealed file unreadable: "+err.Error())
 	}
-	for _, access := range []string{"Open(mmap)", "NewReader(ReaderAt)", "NewReader(ReaderAt reporting io.EOF with the last bytes)"} {
+	for _, access := range []string{"Open(mmap)", "NewReader(ReaderAt)", "NewReader(ReaderAt reporting io.EOF with the last bytes)", "NewReader(all-or-nothing ReaderAt)"} {
 		var r *Reader
 		err, pn = c05Guard(access, func() error {
 			var e error
@@ -266,6 +266,8 @@ func c05Round(R *vkit.Report, c c05Case, scope string, puts [][64]byte, queries 
 				r, e = Open(path)
 			case "NewReader(ReaderAt)":
 				r, e = NewReader(bytes.NewReader(data))
+			case "NewReader(all-or-nothing ReaderAt)":
+				r, e = NewReader(c05AllOrNothing{bytes.NewReader(data)})
 			default:
 				r, e = NewReader(c05EagerEOF{bytes.NewReader(data)})
 			}
@@ -518,7 +520,7 @@ func TestVerif_C05(t *testing.T) {
 			os.RemoveAll(c05Scratch)
 		}
 	}()
-	R.Rule = "reference model = per two-byte prefix the set of xxhash64 values of the added signatures. (small-universe) every multiset with multiplicity 0..2 over a universe of signatures on two prefixes x two insertion orders x metadata of 0/1/3 pairs, one real writer each; (populations) one file in which prefix p holds exactly p signatures for every p = 0..P plus populations 2^k-1, 2^k, 2^k+1 up to 4097, and a mirrored file with every signature put twice. After Seal every added signature must be present through Open (mmap), through NewReader over an in-memory ReaderAt and over a ReaderAt that reports io.EOF together with the last bytes of the input, never-added signatures whose hash differs from all added ones of the prefix must be absent, and Writer.Has (before and after Seal) must agree with the file. One evaluation = one writer (small-universe) or one (prefix, population) pair (populations); non-trivial = a duplicate or at least two signatures in one prefix."
+	R.Rule = "reference model = per two-byte prefix the set of xxhash64 values of the added signatures. (small-universe) every multiset with multiplicity 0..2 over a universe of signatures on two prefixes x two insertion orders x metadata of 0/1/3 pairs, one real writer each; (populations) one file in which prefix p holds exactly p signatures for every p = 0..P plus populations 2^k-1, 2^k, 2^k+1 up to 4097, and a mirrored file with every signature put twice. After Seal every added signature must be present through Open (mmap), through NewReader over an in-memory ReaderAt over a ReaderAt that reports io.EOF together with the last bytes of the input and over one that returns nothing at all for a read crossing the end, never-added signatures whose hash differs from all added ones of the prefix must be absent, and Writer.Has (before and after Seal) must agree with the file. One evaluation = one writer (small-universe) or one (prefix, population) pair (populations); non-trivial = a duplicate or at least two signatures in one prefix."
 	// child mode: exactly one populations case, report goes to the parent
 	if cj := os.Getenv("VERIF_C05_CHILD"); cj != "" {
 		var c c05Case
@@ -641,4 +643,16 @@ func (e c05EagerEOF) ReadAt(p []byte, off int64) (int, error) {
 		err = io.EOF
 	}
 	return n, err
+}
+
+// c05AllOrNothing is a third conforming kind of io.ReaderAt: a read that would cross the end of the input returns
+// no bytes at all together with io.EOF (n < len(p) with a non-nil error is all the contract asks for). A reader
+// that only ever asks for bytes the file holds never notices.
+type c05AllOrNothing struct{ r *bytes.Reader }
+
+func (e c05AllOrNothing) ReadAt(p []byte, off int64) (int, error) {
+	if off+int64(len(p)) > e.r.Size() {
+		return 0, io.EOF
+	}
+	return e.r.ReadAt(p, off)
 }
